@@ -37,6 +37,12 @@ pub enum Step {
     IsolateLeader { pick: u8 },
     /// cut the links between this node and everybody else (other cuts stay)
     Isolate { node: u8 },
+    /// Two calls on ONE node run on two scheduled threads (the node is a `Sync`
+    /// object: in the real server client proposals and the heartbeat task run
+    /// beside the message loop). a/b: 0 = deliver the picked in-flight message
+    /// addressed to that node, 1 = propose, 2 = send heartbeats, 3 = tick.
+    /// Every lock acquisition inside raft.rs is a schedule point (sync_compat).
+    Concurrent { node: u8, a: u8, b: u8, pick_a: u16, pick_b: u16, sched: Vec<u8> },
     /// nth = None: between steps; Some(k): inside the k-th mutating syscall of that node from now
     Crash { node: u8, nth: Option<u8>, bytes: Option<u8>, cut: u8 },
     Restart { node: u8 },
@@ -236,13 +242,14 @@ impl Scenario for C01 {
         let w_part = *rng.pick(&[0u64, 1, 3]);
         let w_crash = if wal { *rng.pick(&[0u64, 2, 5]) } else { 0 };
         let w_timeout = *rng.pick(&[2u64, 4, 8]);
+        let w_conc = *rng.pick(&[0u64, 0, 3, 8]);
         let w_reorder = *rng.pick(&[0u64, 20, 60]); // % of deliveries that pick a random message instead of the oldest
         let nn = u64::from(n);
         let mut steps = Vec::with_capacity(len + 8);
         // a first election so that most runs make progress early
         steps.push(Step::Timeout { node: rng.below(nn) as u8 });
         for _ in 0..len {
-            let total = 50 + 8 + w_timeout + 8 + 12 + 2 + 5 + w_drop + w_dup + w_part * 2 + w_crash * 2 + 2;
+            let total = 50 + 8 + w_timeout + 8 + 12 + 2 + w_conc + 5 + w_drop + w_dup + w_part * 2 + w_crash * 2 + 2;
             let mut r = rng.below(total);
             let mut take = |w: u64| -> bool {
                 if r < w {
@@ -264,6 +271,18 @@ impl Scenario for C01 {
                 Step::Propose { pick: rng.below(4) as u8, payload: rng.below(1 << 20) as u32 }
             } else if take(2) {
                 Step::CheckQuorum { pick: rng.below(4) as u8 }
+            } else if take(w_conc) {
+                let stick = *rng.pick(&[0u64, 50, 80]);
+                Step::Concurrent {
+                    node: rng.below(nn) as u8,
+                    // the message loop (deliver / tick) beside a client proposal or the
+                    // heartbeat task: the pairs the real server runs concurrently
+                    a: *rng.pick(&[0u8, 0, 0, 3]),
+                    b: *rng.pick(&[1u8, 1, 2]),
+                    pick_a: rng.below(8) as u16,
+                    pick_b: rng.below(8) as u16,
+                    sched: crate::sched::gen_schedule(rng, 48, stick),
+                }
             } else if take(5) {
                 Step::Advance { ms: *rng.pick(&[5u32, 30, 60, 200, 400, 6000]) }
             } else if take(w_drop) {
@@ -391,6 +410,7 @@ impl Scenario for C01 {
 
     fn run(&self, case: &Case, ctx: &Arc<RunCtx>) -> RunOut {
         let mut out = RunOut::default();
+        crate::sched::set_allowed_sites(&["c01.", "tensor_chain."]);
         let n = case.n as usize;
         let mut cl = Cluster::new(ctx, n, raft_cfg(case), case.wal);
         for i in 0..n {
@@ -587,6 +607,93 @@ impl Scenario for C01 {
                     }
                     drop(g);
                     ctx.fault_fired("node_isolated");
+                },
+                Step::Concurrent { node, a, b, pick_a, pick_b, sched } => {
+                    let i = *node as usize % n;
+                    if let Some(nd) = cl.nodes[i].clone() {
+                        // messages addressed to this node, taken out of the in-flight set
+                        let take_msg = |pick: u16| -> Option<crate::net::InFlight> {
+                            let mut g = cl.net.lock().unwrap();
+                            let idxs: Vec<usize> = g
+                                .inflight
+                                .iter()
+                                .enumerate()
+                                .filter(|(_, m)| m.to == ids[i] && !g.blocked.iter().any(|(x, y)| *x == m.from && *y == m.to))
+                                .map(|(k, _)| k)
+                                .collect();
+                            if idxs.is_empty() {
+                                None
+                            } else {
+                                let k = idxs[pick as usize % idxs.len()];
+                                Some(g.inflight.remove(k))
+                            }
+                        };
+                        let ma = if *a == 0 { take_msg(*pick_a) } else { None };
+                        let mb = if *b == 0 { take_msg(*pick_b) } else { None };
+                        payload_seq += 2;
+                        let mk_body = |kind: u8, m: Option<crate::net::InFlight>, pl: u64| -> crate::sched::Body {
+                            let nd = nd.clone();
+                            let net = cl.net.clone();
+                            let id = ids[i].clone();
+                            let fp = case.fast_path;
+                            Box::new(move || {
+                                crate::sched::yield_point("c01.start");
+                                match (kind, m) {
+                                    (0, Some(m)) => {
+                                        if let Some(r) = nd.handle_message(&m.from, &m.msg) {
+                                            let mut g = net.lock().unwrap();
+                                            g.next_id += 1;
+                                            let mid = g.next_id;
+                                            g.inflight.push(crate::net::InFlight { id: mid, from: id.clone(), to: m.from.clone(), msg: r });
+                                        }
+                                    },
+                                    (1, _) => {
+                                        let _ = nd.propose(mk_block(pl, &id, fp));
+                                    },
+                                    (2, _) => {
+                                        let _ = crate::net::now_or_never(nd.send_heartbeats());
+                                    },
+                                    (3, _) => {
+                                        let _ = crate::net::now_or_never(nd.tick_async());
+                                    },
+                                    _ => {},
+                                }
+                            })
+                        };
+                        let bodies = vec![
+                            mk_body(*a, ma.clone(), (0xC0 << 16) | payload_seq),
+                            mk_body(*b, mb.clone(), (0xC1 << 16) | (payload_seq + 1)),
+                        ];
+                        ctx.event(&format!(
+                            "{si}: {} concurrently: [{}] || [{}]",
+                            ids[i],
+                            ma.as_ref().map(|m| msg_brief(&m.msg)).unwrap_or_else(|| format!("op{a}")),
+                            mb.as_ref().map(|m| msg_brief(&m.msg)).unwrap_or_else(|| format!("op{b}"))
+                        ));
+                        ctx.set_node(Some(&ids[i]));
+                        let res = crate::sched::run_threads(ctx, sched, 4000, bodies);
+                        ctx.set_node(None);
+                        if res.deadlocked {
+                            // liveness, not part of C01: noted, the run ends here
+                            out.observations.push(format!("observation (not judged): two concurrent calls on one node deadlocked (ops {a} || {b})"));
+                            out.nontrivial = !or.ledger.is_empty();
+                            return out;
+                        }
+                        if res.exhausted {
+                            out.harness_error = Some("C01 concurrent step exhausted its schedule budget".into());
+                            return out;
+                        }
+                        if let Some(p) = res.panics.first() {
+                            out.violation = Some(viol("panic-in-raft-code", format!("{}: {p}", ids[i])));
+                            out.nontrivial = true;
+                            return out;
+                        }
+                        if res.switches > 0 {
+                            ctx.probe("two_calls_interleaved_inside_one_node");
+                        }
+                        ctx.fp("concurrent");
+                        acted = Some(i);
+                    }
                 },
                 Step::Crash { node, nth, bytes, cut } => {
                     let i = *node as usize % n;
